@@ -269,6 +269,7 @@ def stratified(cs, target, rnd):
 def run(ctx, prop, cases_override=None):
     import os
     import random
+    import tempfile
     thorough = ctx.thorough
     lead_inv = "Lead_" + prop
     workers = int(os.environ.get("LF_WORKERS", "0")) or None
@@ -284,9 +285,10 @@ def run(ctx, prop, cases_override=None):
         for name, consts, target in slices:
             r = ctx.tlc("LabelFlow", "lf_mc_%s.cfg" % name, files={"lf_mc_%s.cfg" % name: cfg_text(consts, [lead_inv, "EmitCase"], fixes)},
                         timeout=5000, workers=workers, tag="MC-" + name, heap="8g")
-            mc_runs.append(r)
+            mc_runs.append({"distinct": r["distinct"], "generated": r["generated"]})
             ls = [v[0] for v in prints(r, "LEAD")]
             cs = [v[0] for v in prints(r, "CASE")]
+            r = None      # the raw TLC output of a large slice is hundreds of MB
             log("[lflow] MC %s: %d expressions checked against %s, %d leads" % (name, len(cs), lead_inv, len(ls)))
             nlead_total += len(ls)
             # replay a bounded, evenly spread sample of the leads (every shape is represented) ...
@@ -339,7 +341,11 @@ def run(ctx, prop, cases_override=None):
 
     def judge(off):
         part = trace[off:off + chunk]
-        sub = vlib.Ctx(ctx.prop, ctx.tier, ctx.seed, ctx.repo)     # own scratch copy of spec/ (removed at exit)
+        # a bare context with its own scratch copy of spec/ below the run's scratch directory (no replay housekeeping)
+        sub = vlib.Ctx.__new__(vlib.Ctx)
+        sub.prop, sub.tier, sub.seed, sub.repo, sub.t0, sub.keep = ctx.prop, ctx.tier, ctx.seed, ctx.repo, ctx.t0, ctx.keep
+        sub.scratch = tempfile.mkdtemp(prefix="judge-", dir=ctx.scratch)
+        sub.tlc_stats, sub.notes, sub._vh, sub._pint = [], [], {}, {}
         ppath = write_ndjson(sub.path("lflow_part.ndjson"), part)
         j = sub.tlc("LabelFlowTrace", "LabelFlowTrace.cfg", workers=1,
                     files={"lflow_trace.ndjson": ppath, "LabelFlowTrace.cfg": TRACE_CFG % tla(fixes)}, timeout=5000, heap="4g", tag="JUDGE")
